@@ -12,16 +12,18 @@ Import ListNotations.
 Open Scope Z_scope.
 
 (** The two Go parsers agree on every valid byte-range header, for every string and every size: the
-    length-less parser (which positions the reader) returns the requested specs as they are, the parser with
+    length-less parser (which positions the reader) returns the requested specs as they are ([keeps]: with the
+    zero-suffix defect off it skips a suffix of length 0, which selects nothing), the parser with
     the length (which writes the headers) returns exactly the satisfiable specs, clamped to the file, and
     "no overlap" iff there are specs and none is satisfiable.  A header the specification rejects is rejected
     by the length-less parser. *)
-Theorem C30_parsers_agree : forall s sps size, 0 <= size -> s <> [] -> parse_specs s = Some sps ->
-  Forall wf_spec sps /\ prwl s = Some (map brange_of sps) /\ pr false s size = pr_of_specs size sps.
+Theorem C30_parsers_agree : forall f s sps size, 0 <= size -> s <> [] -> parse_specs s = Some sps ->
+  Forall wf_spec sps /\ prwl f s = Some (map brange_of (filter (keeps f) sps)) /\
+  pr false s size = pr_of_specs size sps.
 Proof. exact parsers_agree. Qed.
 Print Assumptions C30_parsers_agree.
 
-Theorem C30_parsers_agree_invalid : forall s, s <> [] -> parse_specs s = None -> prwl s = None.
+Theorem C30_parsers_agree_invalid : forall f s, s <> [] -> parse_specs s = None -> prwl f s = None.
 Proof. exact parsers_agree_err. Qed.
 Print Assumptions C30_parsers_agree_invalid.
 
